@@ -561,7 +561,9 @@ pub fn c04(ctx: &Ctx) -> (Report, Meta) {
 
 pub fn c05_alphabet() -> Vec<u8> {
     let c = crc24q(&[0xD3, 0, 0]);
-    vec![0xD3, 0x00, (c >> 16) as u8, (c >> 8) as u8, c as u8, 0x01]
+    // the preamble, its lower neighbour (word-at-a-time preamble searches confuse the two), zero, the
+    // CRC bytes of the empty frame, and a byte that is none of those
+    vec![0xD3, 0x00, (c >> 16) as u8, (c >> 8) as u8, c as u8, 0x01, 0xD2]
 }
 
 pub fn tokens() -> Vec<(&'static str, Vec<u8>)> {
@@ -593,6 +595,8 @@ pub fn tokens() -> Vec<(&'static str, Vec<u8>)> {
         ("1005[..24]", f1005[..24].to_vec()),
         ("00", vec![0x00]),
         ("FF", vec![0xFF]),
+        ("D2", vec![0xD2]),
+        ("D4D2", vec![0xD4, 0xD2]),
         ("D303FF", vec![0xD3, 0x03, 0xFF]),
     ]
 }
@@ -726,17 +730,18 @@ pub type Visit<'a> = &'a (dyn Fn(&mut Report, &[u8], &dyn Fn() -> serde_json::Va
 
 /// The buffer sets of C05 (also used by C02's raw-buffer part): (a) alphabet strings, (b) token streams, (c) long buffers.
 pub fn enumerate_buffers(tier: Tier, visit: Visit) -> Report {
-    let maxlen = tier.pick(10usize, 11usize);
-    let depth = tier.pick(4usize, 6usize);
+    let maxlen = tier.pick(9usize, 10usize);
+    let depth = tier.pick(4usize, 5usize);
     let alpha = c05_alphabet();
     // (a) strings: shard on the first 3 symbols
-    let parts = par_shards(216, |sh| {
+    let na = alpha.len();
+    let parts = par_shards(na * na * na, |sh| {
         let mut rep = Report::new();
-        let pre = [alpha[sh / 36], alpha[(sh / 6) % 6], alpha[sh % 6]];
+        let pre = [alpha[sh / (na * na)], alpha[(sh / na) % na], alpha[sh % na]];
         watch_enter(0x0500_0000 + sh as u64);
         if sh == 0 {
             // lengths 0..=2 once
-            for s in seqs(6, 2) {
+            for s in seqs(na, 2) {
                 let b: Vec<u8> = s.iter().map(|x| alpha[*x as usize]).collect();
                 visit(&mut rep, &b, &|| json!("string over alphabet"));
                 rep.states += 1;
@@ -758,7 +763,7 @@ pub fn enumerate_buffers(tier: Tier, visit: Visit) -> Report {
                 loop {
                     match idx.pop() {
                         None => break,
-                        Some(x) if x + 1 < 6 => {
+                        Some(x) if x + 1 < na => {
                             idx.push(x + 1);
                             break;
                         }
@@ -854,8 +859,8 @@ pub fn enumerate_buffers(tier: Tier, visit: Visit) -> Report {
 
 pub fn c05(ctx: &Ctx) -> (Report, Meta) {
     let mut rep = enumerate_buffers(ctx.tier, &|rep, buf, desc| c05_check(rep, buf, desc));
-    let maxlen = ctx.tier.pick(10usize, 11usize);
-    let depth = ctx.tier.pick(4usize, 6usize);
+    let maxlen = ctx.tier.pick(9usize, 10usize);
+    let depth = ctx.tier.pick(4usize, 5usize);
     let alpha = c05_alphabet();
     let toks = tokens();
     rep.distinct_nontrivial = rep.outcomes.iter().filter(|(k, _)| k.starts_with("delivered")).map(|(_, v)| *v).sum();
@@ -863,7 +868,7 @@ pub fn c05(ctx: &Ctx) -> (Report, Meta) {
     rep.sample(json!({"tokens":["1005[..12]","L0"],"expect":"stalled on the incomplete candidate at 0"}));
     rep.sample(json!({"tokens":["outer-badcrc"],"expect":"inner L0 frame delivered after skip"}));
     let meta = Meta {
-        rule: "every byte string over {D3,00,c1,c2,c3,01} (c1..c3 = CRC of D3 00 00) up to maxlen; every sequence of <= depth tokens (valid frames, nested frame, damaged frames, truncation classes, stray bytes, header announcing 1023 bytes); long buffers beyond 1029 bytes. Each buffer: next_msg_frame vs. reference scanner, derived dead-byte check, MsgFrameIter vs. repeated reference scans. distinct_nontrivial = buffers in which a frame was delivered".into(),
+        rule: "every byte string over {D3,D2,00,c1,c2,c3,01} (c1..c3 = CRC of D3 00 00) up to maxlen; every sequence of <= depth tokens (valid frames, nested frame, damaged frames, truncation classes, stray bytes, header announcing 1023 bytes); long buffers beyond 1029 bytes. Each buffer: next_msg_frame vs. reference scanner, derived dead-byte check, MsgFrameIter vs. repeated reference scans. distinct_nontrivial = buffers in which a frame was delivered".into(),
         exhaustive: true,
         bounds: json!({"string_maxlen": maxlen, "token_depth": depth, "tokens": toks.iter().map(|t| t.0).collect::<Vec<_>>()}),
         assumptions: vec![],
@@ -1031,7 +1036,7 @@ fn c06_one(rep: &mut Report, stream: &[u8], restrict: Option<&[usize]>, desc: &d
 
 pub fn c06(ctx: &Ctx) -> (Report, Meta) {
     let depth = ctx.tier.pick(4usize, 5usize);
-    let strlen = ctx.tier.pick(8usize, 9usize);
+    let strlen = ctx.tier.pick(7usize, 8usize);
     let toks = tokens();
     let all = seqs(toks.len(), depth);
     let nsh = 256;
@@ -1057,7 +1062,7 @@ pub fn c06(ctx: &Ctx) -> (Report, Meta) {
     }
     // strings of set (a)
     let alpha = c05_alphabet();
-    let strs = seqs(6, strlen);
+    let strs = seqs(alpha.len(), strlen);
     let parts = par_shards(nsh, |sh| {
         let mut rep = Report::new();
         watch_enter(0x0601_0000 + sh as u64);
